@@ -70,7 +70,8 @@ def op? : Sexp → Option Op
   | .list [.atom "cut", n, acc] => do let n ← n.toNat?; let acc ← acc.toBool?; pure (.cut n acc)
   | .list [.atom "map", all] => do let all ← all.toBool?; pure (.mapBang all)
   | .list [.atom "SUBST", .str p, .str r, n] => do let n ← n.toNat?; pure (.subst p r n)
-  | .list [.atom "filter", d] => do let d ← d.toBool?; pure (.filter d)
+  | .list [.atom "filter", d] => do
+      let d ← d.toBool?; pure (.filter (if d then dropComments else id))
   | _ => none
 
 /-- buffer ids a chain writes -/
